@@ -758,7 +758,8 @@ class Exec:
 
 
 VARIANT_IDX = {'None': 0, 'Some': 1, 'Ok': 0, 'Err': 1, 'Continue': 0, 'Break': 1, 'Ref': 0, 'Owned': 1,
-               'Occupied': 0, 'Vacant': 1, 'Less': -1, 'Equal': 0, 'Greater': 1}
+               'Occupied': 0, 'Vacant': 1, 'Less': -1, 'Equal': 0, 'Greater': 1,
+               'Stage': 0, 'Group': 1, 'NewStage': 2, 'Single': 1, 'Multiple': 2}
 
 
 def variant_index(agg):
